@@ -86,6 +86,13 @@ func (w *Worker) Begin(idx uint64) {
 	}
 }
 
+// Heartbeat tells the parent that a long-running case is still making progress.
+func (w *Worker) Heartbeat() {
+	if w.prog != nil {
+		binary.LittleEndian.PutUint64(w.prog[8:16], uint64(time.Now().UnixNano()))
+	}
+}
+
 // Label records a human-readable description of the current case; evaluated
 // only when a single case is being re-run for attribution.
 func (w *Worker) Label(f func() string) {
@@ -148,6 +155,33 @@ func (w *Worker) Broken(format string, a ...any) {
 	w.Rep.Broken = append(w.Rep.Broken, fmt.Sprintf(format, a...))
 }
 
+// Abandon writes the report gathered so far and leaves the process with status
+// 3: used when a runaway goroutine (a stalled controlled execution) makes the
+// process unusable. The parent merges the report and resumes the shard after
+// the announced case.
+func (w *Worker) Abandon() {
+	w.finish()
+	os.Exit(3)
+}
+
+func (w *Worker) finish() bool {
+	if w.sets != nil {
+		w.Rep.Sets = map[string][]string{}
+		for k, m := range w.sets {
+			for s := range m {
+				w.Rep.Sets[k] = append(w.Rep.Sets[k], s)
+			}
+		}
+	}
+	b, _ := json.Marshal(&w.Rep)
+	if err := os.WriteFile(w.job.Out+".tmp", b, 0644); err != nil {
+		fmt.Fprintln(os.Stderr, "worker: cannot write report:", err)
+		return false
+	}
+	os.Rename(w.job.Out+".tmp", w.job.Out)
+	return true
+}
+
 // Try runs f and converts a Go panic on this goroutine into a value.
 func Try(f func()) (p any, stack string) {
 	defer func() {
@@ -189,20 +223,9 @@ func WorkerMain() int {
 		}
 	}
 	def.Workers[j.Worker](w)
-	if w.sets != nil {
-		w.Rep.Sets = map[string][]string{}
-		for k, m := range w.sets {
-			for s := range m {
-				w.Rep.Sets[k] = append(w.Rep.Sets[k], s)
-			}
-		}
-	}
-	b, _ := json.Marshal(&w.Rep)
-	if err := os.WriteFile(j.Out+".tmp", b, 0644); err != nil {
-		fmt.Fprintln(os.Stderr, "worker: cannot write report:", err)
+	if !w.finish() {
 		return 2
 	}
-	os.Rename(j.Out+".tmp", j.Out)
 	return 0
 }
 
@@ -267,6 +290,14 @@ func (c *Ctx) runOne(spec *PoolSpec, j wjob, dir string, tag string) (rep *Shard
 		}
 		return binary.LittleEndian.Uint64(b[0:8])
 	}
+	readBeat := func() uint64 {
+		b, err := os.ReadFile(j.Progress)
+		if err != nil || len(b) < 16 {
+			return 0
+		}
+		return binary.LittleEndian.Uint64(b[8:16])
+	}
+	var lastBeat uint64
 	tick := time.NewTicker(500 * time.Millisecond)
 	defer tick.Stop()
 	var werr error
@@ -277,9 +308,9 @@ loop:
 		case werr = <-done:
 			break loop
 		case <-tick.C:
-			p := readProg()
-			if p != lastIdx {
-				lastIdx, lastChange = p, time.Now()
+			p, bt := readProg(), readBeat()
+			if p != lastIdx || bt != lastBeat {
+				lastIdx, lastBeat, lastChange = p, bt, time.Now()
 			} else if time.Since(lastChange) > stall {
 				hung = true
 				syscall.Kill(-cmd.Process.Pid, syscall.SIGQUIT)
@@ -306,6 +337,15 @@ loop:
 		return nil, "hang", idx, stderrTail
 	}
 	if werr != nil {
+		if ee, ok := werr.(*exec.ExitError); ok && ee.ExitCode() == 3 {
+			if b, err := os.ReadFile(j.Out); err == nil {
+				rep = &ShardReport{}
+				if json.Unmarshal(b, rep) == nil {
+					os.Remove(j.Out)
+					return rep, "abandoned", idx, stderrTail
+				}
+			}
+		}
 		k := "exit:" + werr.Error()
 		if strings.Contains(stderrTail, "fatal error:") {
 			k = "fatal"
@@ -382,7 +422,9 @@ func (c *Ctx) RunPool(spec PoolSpec) *PoolResult {
 			c.Violation(v.Key, v.What, v.Replay)
 			if v.Count > 1 {
 				c.mu.Lock()
-				c.viol[v.Key].Count += v.Count - 1
+				if e := c.viol[v.Key]; e != nil {
+					e.Count += v.Count - 1
+				}
 				c.mu.Unlock()
 			}
 		}
@@ -409,9 +451,25 @@ func (c *Ctx) RunPool(spec PoolSpec) *PoolResult {
 			defer wg.Done()
 			for shard := range jobs {
 				from := uint64(0)
+				shardStart := uint64(0)
 				for attempts := 0; ; attempts++ {
+					shardStart = from
 					j := wjob{Check: c.ID, Worker: spec.Worker, Tier: c.Tier, Seed: c.Seed, Shard: shard, NShards: spec.Shards, From: from, Only: -1, Args: argb}
+					t0 := time.Now()
 					rep, kind, idx, tail := c.runOne(&spec, j, dir, fmt.Sprintf("s%d", shard))
+					if os.Getenv("VERIF_POOL_TRACE") != "" {
+						fmt.Fprintf(os.Stderr, "pool %s shard %d from %d: %.1fs kind=%q idx=%d rep=%v\n", spec.Worker, shard, from, time.Since(t0).Seconds(), kind, idx, rep != nil)
+					}
+					if rep != nil && kind == "abandoned" {
+						// the worker reported the case itself and left; carry on after it
+						merge(rep)
+						from = idx + 1
+						if attempts > 500 {
+							c.Broken("worker %s shard %d: abandoned too often", spec.Worker, shard)
+							break
+						}
+						continue
+					}
 					if rep != nil {
 						merge(rep)
 						break
@@ -453,7 +511,7 @@ func (c *Ctx) RunPool(spec PoolSpec) *PoolResult {
 					} else {
 						// a stall that did not reproduce (machine load): run the shard again from this case
 						c.Count("stall_retries", 1)
-						from = idx
+						from = shardStart // the killed worker's partial results are gone: redo the shard from where this run began
 						if attempts > 3 {
 							c.Broken("worker %s shard %d stalls repeatedly at case %d without reproducing alone", spec.Worker, shard, idx)
 							break
